@@ -381,3 +381,57 @@ VARIANTS += [
     F("C04", "dt-from-stop", JIN, "        self.dt = {{specs.dt}}", "        self.dt = {{specs.stop}}", "TIME/jinja:__init__/dt"),
     S("C04", "literal-key-order", STX, "                expression = {\"name\": 'IF', \"type\": 'call', \"args\": [", "                expression = {\"type\": 'call', \"name\": 'IF', \"args\": ["),
 ]
+
+# ---------------------------------------------------------------------------- more must-stay-silent variants
+VARIANTS += [
+    # C13: comparison form instead of the builtin; key order of the initialiser
+    S("C13", "max-by-comparison", DC, "                            (self.agent_statistics[time][agent.agent_type][agent.state]\n                            [agent_property_name][\"max\"]) = (max(self.agent_statistics[time][agent.agent_type]\n                                                                 [agent.state][agent_property_name][\"max\"],\n                                                                 agent_property_value[\"value\"]))",
+      "                            if agent_property_value[\"value\"] > self.agent_statistics[time][agent.agent_type][agent.state][agent_property_name][\"max\"]:\n                                self.agent_statistics[time][agent.agent_type][agent.state][agent_property_name][\"max\"] = agent_property_value[\"value\"]"),
+    S("C13", "initialiser-reordered", DC, '"total": 0, "max": None, "min": None}', '"min": None, "max": None, "total": 0}'),
+    S("C13", "total-spelled-out", DC, "[agent_property_name][\"total\"] += \\\n                        agent_property_value[\"value\"]", "[agent_property_name][\"total\"] = self.agent_statistics[time][agent.agent_type][agent.state][agent_property_name][\"total\"] + \\\n                        agent_property_value[\"value\"]"),
+    # C11: agents iterated over a snapshot; index built with a different variable name
+    S("C11", "index-variable-renamed", SIM, "        agents_by_id = {agent.id: agent for agent in model.agents}", "        agents_by_id = {a.id: a for a in model.agents}"),
+    # C12: snapshot iteration is fine
+    S("C12", "iterate-over-snapshot", SIM, "        for agent in model.agents:\n            agent.handle_events(", "        for agent in list(model.agents):\n            agent.handle_events(", error_ok=False),
+    # C16: deep-copied module template is fine
+    S("C16", "uuid4-instead-of-uuid1", SRV, "        instance_uuid = uuid.uuid1().hex", "        instance_uuid = uuid.uuid4().hex"),
+    # C19: local for the path
+    S("C19", "record-built-in-two-steps", ADP, '        f = open(os.path.join(self.path, str(state.instance_id) + ".json"), "w")\n        f.write(jsonpickle.dumps(data))\n        f.close()', '        payload = jsonpickle.dumps(data)\n        f = open(os.path.join(self.path, str(state.instance_id) + ".json"), "w")\n        f.write(payload)\n        f.close()'),
+    # C20: atomic write would be an improvement, not a violation
+    S("C20", "atomic-replace", ADP, '        f = open(os.path.join(self.path, str(state.instance_id) + ".json"), "w")\n        f.write(jsonpickle.dumps(data))\n        f.close()', '        target = os.path.join(self.path, str(state.instance_id) + ".json")\n        f = open(target + ".tmp", "w")\n        f.write(jsonpickle.dumps(data))\n        f.close()\n        os.replace(target + ".tmp", target)'),
+    # C09: flat results computed from the same step dict
+    S("C09", "stop-test-rearranged", BPTK, "        if step>stoptime:\n            return {\"msg\":\"Stoptime reached\"}", "        if stoptime<step:\n            return {\"msg\":\"Stoptime reached\"}"),
+    # C08: explicit keys() iteration
+    S("C08", "reset-over-keys", MODEL, "        for equation in self.memo:\n            self.memo[equation] = {}", "        for equation in self.memo.keys():\n            self.memo[equation] = {}"),
+    # C17: explicit keywords for timedelta
+    S("C17", "units-with-get", SRV, '"weeks": 0 if "weeks" not in timeout else timeout["weeks"],', '"weeks": timeout.get("weeks", 0),'),
+    # C18: lock taken as first statement inside try
+    S("C18", "unlock-in-finally-only-streamer", SRV, "                yield \"]\"\n                instance.unlock()\n            except:\n                instance.unlock()", "                yield \"]\"\n            finally:\n                instance.unlock()"),
+]
+
+VARIANTS += [
+    S("C15", "refusal-returned-directly", SRV, "                if token != self._bearer_token:\n                    resp = make_response('{\"Unauthorized\": \"Authentication Token is wrong!\"}', 401)\n                    return resp",
+      "                if token != self._bearer_token:\n                    return make_response('{\"Unauthorized\": \"Authentication Token is wrong!\"}', 401)"),
+    S("C17", "timedelta-explicit-keywords", SRV, "                        timeout = datetime.timedelta(**self._instances[key][\"timeout\"])",
+      "                        t_ = self._instances[key][\"timeout\"]\n                        timeout = datetime.timedelta(weeks=t_[\"weeks\"], days=t_[\"days\"], hours=t_[\"hours\"], minutes=t_[\"minutes\"], seconds=t_[\"seconds\"], milliseconds=t_[\"milliseconds\"], microseconds=t_[\"microseconds\"])"),
+    S("C01", "flow-template-fstring", FLOW, 'self._function_string = "lambda model, t : max( {},{})".format(0,right_term)', 'self._function_string = f"lambda model, t : max( 0,{right_term})"'),
+    S("C05", "memoize-precision-local", MODEL, "        normalized_arg= fp.normalize(arg, self.dt, self.starttime, max(fp.scale(self.starttime), fp.scale(self.dt)))",
+      "        precision = max(fp.scale(self.starttime), fp.scale(self.dt))\n        normalized_arg= fp.normalize(arg, self.dt, self.starttime, precision)"),
+    S("C06", "points-copy-method", SMSD, "        new_mod.points = dict(model.points)", "        new_mod.points = model.points.copy()"),
+    S("C07", "settings-with-update", SCN, '            for key, value in dictionary["constants"].items():\n                self.constants[key] = value', '            self.constants.update(dictionary["constants"])'),
+    S("C14", "count-through-agent-ids", MODEL, "        return len(self.agent_type_map[agent_type])", "        return len(self.agent_ids(agent_type))"),
+    S("C16", "delete-with-pop", SRV, "        if instance_id in self._instances:\n            del self._instances[instance_id]", "        self._instances.pop(instance_id, None)"),
+    S("C19", "load-with-open", ADP, '            f = open(os.path.join(self.path, str(instance_uuid) + ".json"), "r")\n            instance_data = jsonpickle.loads(f.read())', '            with open(os.path.join(self.path, str(instance_uuid) + ".json"), "r") as f:\n                instance_data = jsonpickle.loads(f.read())'),
+    S("C10", "guard-operands-swapped", OPS, "        # Matrix matrix\n        if dim1[1] != dim2[0]:", "        # Matrix matrix\n        if dim2[0] != dim1[1]:"),
+    S("C02", "multiplication-by-format", OPS, 'return "(" + self.element_1.term(time) + ") * (" + self.element_2.term(time) + ")"', 'return "({}) * ({})".format(self.element_1.term(time), self.element_2.term(time))', count=2),
+    dict(prop="C03", kind="S", name="helper-renamed", count=1, edits=[(PYG, "def percent_(*args):", "def percent_of_(*args):"), (PYG, "'percent' : lambda *args : percent_(args),", "'percent' : lambda *args : percent_of_(args),")]),
+    S("C04", "previous-pattern-names", PYG, "    pattern_t = r\"\\(?\\,? ([t+\\-]+)\\)\"\n    body = re.sub(pattern_t, \",t-self.dt)\", body)", "    pattern_time = r\"\\(?\\,? ([t+\\-]+)\\)\"\n    body = re.sub(pattern_time, \",t-self.dt)\", body)"),
+    S("C08", "constant-setter-reset-first", CONST, "        self.model.reset_cache()\n        self.generate_function()", "        self.model.reset_cache()\n        self.model.reset_cache()\n        self.generate_function()"),
+    S("C12", "time-into-local-twice", SIM, "        self.current_time = time\n", "        self.current_time = time\n        now = time\n"),
+    S("C13", "fillna-with-keyword", HR, "        return pd.DataFrame(output).fillna(0)", "        return pd.DataFrame(output).fillna(value=0)"),
+    S("C18", "is-locked-result-in-local", SRV, "        if(instance.is_locked()):\n            resp = make_response('{\"error\": \"instace is locked\"}', 500)\n            resp.headers['Content-Type'] = 'application/json'\n            resp.headers['Access-Control-Allow-Origin'] = '*'\n            return resp\n\n        if not request.is_json:\n            result = instance.run_step()",
+      "        busy = instance.is_locked()\n        if busy:\n            resp = make_response('{\"error\": \"instace is locked\"}', 500)\n            resp.headers['Content-Type'] = 'application/json'\n            resp.headers['Access-Control-Allow-Origin'] = '*'\n            return resp\n\n        if not request.is_json:\n            result = instance.run_step()"),
+    S("C20", "typed-tuple-handler", SDSIM, "            except KeyError:\n                log(\"[WARN] Unable to simulate equation", "            except (KeyError,):\n                log(\"[WARN] Unable to simulate equation"),
+    S("C09", "equations-local-renamed", RUN, "            sc.result = sc.sd_simulation.start(output=[\"frame\"], start=step, until=step,equations=equations)", "            frame = sc.sd_simulation.start(output=[\"frame\"], start=step, until=step,equations=equations)\n            sc.result = frame"),
+    S("C11", "handler-table-local-renamed", AGENT, "            handlers = self.eventHandlers[self.state]", "            handlers = self.eventHandlers[self.state]\n            table = handlers"),
+]
